@@ -850,6 +850,7 @@ def run_e2e(case, tmpdir, want_bodies=False):
     kind = case['kind']
     client = FakeS3()
     sub = Rec()
+    sub2 = Rec()        # a second subscriber: every subscriber is owed the same reports
     log = []
     cfg_kw = dict(multipart_threshold=case['mpthr'], multipart_chunksize=case['chunk'],
                   io_chunksize=case['io'], num_download_attempts=case['attempts'])
@@ -879,7 +880,7 @@ def run_e2e(case, tmpdir, want_bodies=False):
     client.get_script = get_script
     executor = None if case.get('threads') else NonThreadedExecutor
     osutil = recording_osutils(log)
-    res = {'size': size, 'ok': False, 'vals': sub.vals, 'bodies': log, 'exc': None}
+    res = {'size': size, 'ok': False, 'vals': sub.vals, 'vals2': sub2.vals, 'bodies': log, 'exc': None}
     try:
         with ScaledAggregator(case['aggthr']), scaled_adjuster(utils, 2, 9, 4):
             with TransferManager(client, cfg, osutil=osutil, executor_cls=executor) as m:
@@ -901,7 +902,7 @@ def run_e2e(case, tmpdir, want_bodies=False):
                         src.seek(k)
                     else:
                         src = NonSeekableReader(payload, [rng.randrange(1, 7) for _ in range(4)])
-                    fut = m.upload(src, 'b', 'k', subscribers=[sub])
+                    fut = m.upload(src, 'b', 'k', subscribers=[sub, sub2])
                     fut.result()
                     res['stored_ok'] = client.objects.get(('b', 'k')) == payload
                 elif kind.startswith('download'):
@@ -912,7 +913,7 @@ def run_e2e(case, tmpdir, want_bodies=False):
                         dest = io.BytesIO()
                     else:
                         dest = NonSeekableWriter()
-                    fut = m.download('b', 'k', dest, subscribers=[sub])
+                    fut = m.download('b', 'k', dest, subscribers=[sub, sub2])
                     fut.result()
                     if kind == 'download-path':
                         got = open(dest, 'rb').read()
@@ -921,7 +922,7 @@ def run_e2e(case, tmpdir, want_bodies=False):
                     res['stored_ok'] = got == data[:size]
                 else:
                     client.objects[('sb', 'sk')] = data[:size]
-                    fut = m.copy({'Bucket': 'sb', 'Key': 'sk'}, 'b', 'k', subscribers=[sub])
+                    fut = m.copy({'Bucket': 'sb', 'Key': 'sk'}, 'b', 'k', subscribers=[sub, sub2])
                     fut.result()
                     res['stored_ok'] = client.objects.get(('b', 'k')) == data[:size]
         res['ok'] = True
@@ -936,8 +937,13 @@ def oracle_e2e(case, tmpdir):
     if not r['ok']:
         # the scripts never inject a fatal fault: a failing transfer is itself a finding for the
         # byte-exactness properties, here only the bounds apply
-        return prefix_violation(r['vals'], r['size'])
-    return exact_violation(r['vals'], r['size'])
+        return prefix_violation(r['vals'], r['size']) or prefix_violation(r['vals2'], r['size'])
+    return exact_violation(r['vals'], r['size']) or second_subscriber_violation(r)
+
+
+def second_subscriber_violation(r):
+    v = exact_violation(r['vals2'], r['size'])
+    return f'second subscriber of the same transfer: {v}' if v else None
 
 
 def check_e2e(ctx, tmpdir):
@@ -955,6 +961,8 @@ def check_e2e(ctx, tmpdir):
             ctx.sample({'component': 'e2e', 'case': c, 'requests': r['requests'][:12],
                         'bytes_transferred': r['vals'][:24]})
         v = exact_violation(r['vals'], r['size']) if r['ok'] else prefix_violation(r['vals'], r['size'])
+        if not v and r['ok']:
+            v = second_subscriber_violation(r)
         if v:
             ctx.report(sig('e2e', c), f'{c["kind"]} of {c["size"]} bytes (chunk {c["chunk"]}, threshold {c["mpthr"]}): {v}',
                        {'kind': 'input', 'component': 'e2e', 'case': c})
